@@ -240,7 +240,7 @@ pub fn lin_cfg_for(ctx: &Ctx, arch: Arch) -> LinCfg {
             ..LinCfg::default()
         },
         Arch::X86 => LinCfg { max_env: 24, size: ctx.tier.pick(36, 60), max_main_params: 5, wide: 50, floor: (5, 10), ..LinCfg::default() },
-        Arch::A64 => LinCfg { max_env: 24, size: ctx.tier.pick(36, 60), max_main_params: 7, wide: 128, floor: (11, 17), ..LinCfg::default() },
+        Arch::A64 => LinCfg { max_env: 24, size: ctx.tier.pick(36, 60), max_main_params: 7, wide: 128, floor: (11, 17), max_fields: 16, ..LinCfg::default() },
     }
 }
 
